@@ -179,6 +179,8 @@ func c03Oracle(sp *Spec, x *X, res *mcrt.Result) (string, string) {
 				if k, d := checkRow(b, f.Row(b)); k != "" {
 					return k, d
 				}
+			} else if r := f.Row(b); r.Flags == "R" {
+				return "final-state-running", fmt.Sprintf("bar %d is not in a final state in the last frame: %d/%d %s", b, r.Cur, r.Tot, r.Flags)
 			}
 			continue
 		}
@@ -237,10 +239,25 @@ func init() {
 			for _, sp := range endingPrograms("c03c", "auto", -1, 1, endings, 0) {
 				// (the second bar shares the first one's synchronised column: a bar leaving in the closing renders must
 				// not be waited for)
-				sp.Bars = append(sp.Bars, BarSpec{Total: 9, App: []DecorSpec{{Sync: true, Widths: []int{2, 4}}}})
+				sp.Bars = append(sp.Bars, BarSpec{Total: 9, App: []DecorSpec{{Sync: true, Widths: []int{2, 4}}, {Ewma: true, Widths: []int{2}}}})
 				sp.Main = append(sp.Main, Op{K: "add", B: 1})
-				sp.Clients = append(sp.Clients, []Op{{K: "cancel"}})
+				// (the second bar is inside a moving-average update, waiting for its decorators' update goroutines, while the
+				// cancellation and the closing render's request arrive: its goroutine is not idle)
+				sp.Clients = append(sp.Clients, []Op{{K: "cancel"}}, []Op{{K: "ewma", B: 1, N: 1}, {K: "ewma", B: 1, N: 1}})
 				items = append(items, specItems("C03", sp, bound+1, []int{mcrt.StratFIFO, mcrt.StratNewest}, nil, c03Oracle)...)
+			}
+			// the cancellation and the closing render's request both arrive while the bar's goroutine is busy (inside a
+			// TraverseDecorators callback): whatever it serves first, the last frame must show the bar aborted
+			{
+				sp := &Spec{Name: "c03-cancel-while-bar-busy", Refresh: "auto", Q: -1}
+				deco := func() BarSpec {
+					return BarSpec{Total: 9, Pre: []DecorSpec{wrapD("both")}, App: []DecorSpec{{Sync: true, Wrap: "both", Widths: []int{3, 5}}}}
+				}
+				sp.Bars = []BarSpec{deco(), deco()}
+				sp.Main = []Op{{K: "add", B: 0}, {K: "add", B: 1}}
+				// (cancel before the first tick at 100 ms, so that no regular cycle is waiting for the busy bar)
+				sp.Clients = [][]Op{{{K: "incr", B: 1, N: 1}, {K: "traversehold", B: 1}}, {{K: "sleep", N: 50}, {K: "cancel"}, {K: "sleep", N: 30}, {K: "release"}}}
+				items = append(items, specItems("C03", sp, 1, allStrats, nil, c03Oracle)...)
 			}
 			// pop mode: a no-pop bar that has finished stays in the frames, in its final state, to the end
 			for _, rf := range []string{"auto", "manual"} {
